@@ -97,7 +97,7 @@ func c05d05bFractions(ctx *Ctx, j *c05Judge) {
 			return c05Call{k: "hi", a: pick(), incl: r.Intn(2) == 0}
 		}
 	}
-	n := ctx.N(1500, 40000)
+	n := ctx.N(1000, 40000)
 	for i := 0; i < n; i++ {
 		var recv c05Recv
 		switch r.Intn(4) {
